@@ -268,3 +268,27 @@ class XorFrame:
         for b in body:
             x ^= b
         return body + bytes([x])
+
+
+# ---------------------------------------------------------------- pl14: receive thread / stream path (begin)
+def recv_run(comm, calls):
+    """call comm._recv_thread() `calls` times (the body of the receive thread: one reassembly step and the
+    routing of its frame); what is on the two queues afterwards, what is left buffered / unread"""
+    for _ in range(calls):
+        comm._recv_thread()
+    return [comm._q.items, comm._q_stream.items, comm._prev_read, comm._intf.chunks]
+
+
+def stream_data_run(comm, calls):
+    """call comm.stream_data() `calls` times over a scripted stream queue; the results (an assertion
+    failure is recorded and the history goes on) and what is left on the queue"""
+    out = []
+    for _ in range(calls):
+        try:
+            out.append(comm.stream_data())
+        except AssertionError:
+            out.append("AssertionError")
+        except struct.error:
+            out.append("struct.error")
+    return [out, comm._q_stream.items]
+# ---------------------------------------------------------------- pl14 (end)
